@@ -62,6 +62,7 @@ def parseSysOp (o : OState) : List String → Option Sys.Op
   | [_, name, "nextnoid"] => some (.agNext name "noid")
   | [_, name, "nextbadid"] => some (.agNext name "badid")
   | [_, name, "nextunknownid"] => some (.agNext name "unknownid")
+  | [_, name, "nextoldid"] => some (.agNext name "oldid")
   | [_, name, "initerror", t] => some (.agReport name "initerror" t "")
   | [_, name, "exiterror", t] => some (.agReport name "exiterror" t "")
   | [_, name, "initerror", t, mode] => some (.agReport name "initerror" t mode)
